@@ -109,6 +109,9 @@ func zvRandU64(rng *core.Rand, small bool) uint64 {
 func zvRandMeta(rng *core.Rand, size int, small bool) raft.SnapshotMeta {
 	var m raft.SnapshotMeta
 	m.Version = raft.SnapshotVersion(rng.Intn(2))
+	if small {
+		m.Version = 1 // these archives are also restored into a real raft, whose in-memory snapshot store takes version 1 only
+	}
 	m.ID = zvRandStr(rng, 5)
 	m.Index = zvRandU64(rng, small)
 	m.Term = zvRandU64(rng, small)
@@ -413,7 +416,8 @@ func (z *zvCtx) restoreRejected(loc *zvLocal, cs zvCase, mg []byte) {
 // restoreAccepted: an archive accepted with identical extraction must restore the original state.
 func (z *zvCtx) restoreAccepted(loc *zvLocal, cs zvCase, mg []byte) {
 	a := z.arch[cs.Arch]
-	if z.raft == nil || a.Meta.Index >= 1<<40 {
+	// raft's in-memory snapshot store takes version 1 only; huge indexes would overflow raft's index+1
+	if z.raft == nil || a.Meta.Index >= 1<<40 || a.Meta.Version != 1 {
 		return
 	}
 	z.raftMu.Lock()
@@ -432,6 +436,7 @@ func (z *zvCtx) restoreAccepted(loc *zvLocal, cs zvCase, mg []byte) {
 	n1, s1 := z.fsm.state()
 	if err != nil {
 		loc.count("restore:accepted-archive-raft-error")
+		z.run.Inconclusive(fmt.Sprintf("raft refused an accepted archive (archive %d %s): %v", cs.Arch, cs.Desc, err))
 		if n1 != n0 && s1 != zvSha(a.Payload) {
 			z.run.Violation("C20:restore:different-state-restored", fmt.Sprintf("archive %d mutation %s: FSM restored %s, original %s (err %v)", cs.Arch, cs.Desc, s1, zvSha(a.Payload), err), z.witness(cs, mg, nil))
 		}
@@ -761,7 +766,7 @@ func (a *zvArchive) structural(rng *core.Rand) []zvStruct {
 		}
 		cls := "member-removed:" + names[i]
 		if a.Lay.M[i].Size == 0 {
-			cls += "(zero-length)"
+			cls = "member-absent(zero-length):" + names[i]
 		}
 		add(cls, true, "remove member "+names[i], assemble(parts...))
 	}
@@ -808,7 +813,13 @@ func (a *zvArchive) structural(rng *core.Rand) []zvStruct {
 				}
 				copy(h[:100], alt)
 			})
-			add("member-renamed:"+n, true, fmt.Sprintf("rename %s to %q", n, alt), assemble(parts...))
+			cls := "member-renamed:" + n
+			if a.Lay.M[i].Size == 0 && (alt == names[0] || alt == names[1] || alt == names[2]) {
+				// a zero-length member renamed to another expected name: what remains is an archive
+				// WITHOUT that member and without any unexpected name — same class as its removal
+				cls = "member-absent(zero-length):" + n
+			}
+			add(cls, true, fmt.Sprintf("rename %s to %q", n, alt), assemble(parts...))
 		}
 		parts := [][]byte{mem[0], mem[1], mem[2]}
 		parts[i] = zvRehdr(mem[i], func(h []byte) { copy(h[345:500], "dir") })
@@ -1006,12 +1017,36 @@ func TestZZVerifC20(t *testing.T) {
 	rng := core.NewRand(core.Seed())
 	z := &zvCtx{run: run, logger: hclog.NewNullLogger()}
 
-	// private temp directory below the driver's TMPDIR
+	// Private temp directory. snapshot.Read creates one temp file per call and leaks it on failure;
+	// on the ext4 volume of the driver's TMPDIR creating/unlinking ~10^5..10^6 files costs 6x the
+	// rest of the run, so a tmpfs directory is used when there is one (removed at the end; stale
+	// directories of dead processes are removed at start). Fallback: below the driver's TMPDIR.
 	oldTmp, hadTmp := os.LookupEnv("TMPDIR")
-	tmp, err := os.MkdirTemp("", "zvc20-")
-	if err != nil {
-		t.Fatalf("temp dir: %v", err)
+	tmp := ""
+	if st, serr := os.Stat("/dev/shm"); serr == nil && st.IsDir() {
+		if old, _ := os.ReadDir("/dev/shm"); old != nil {
+			for _, e := range old {
+				if rest, ok := strings.CutPrefix(e.Name(), "zvc20-"); ok {
+					if _, perr := os.Stat("/proc/" + rest); perr != nil {
+						os.RemoveAll("/dev/shm/" + e.Name())
+					}
+				}
+			}
+		}
+		d := fmt.Sprintf("/dev/shm/zvc20-%d", os.Getpid())
+		os.RemoveAll(d)
+		if os.Mkdir(d, 0o700) == nil {
+			tmp = d
+		}
 	}
+	if tmp == "" {
+		d, err := os.MkdirTemp("", "zvc20-")
+		if err != nil {
+			t.Fatalf("temp dir: %v", err)
+		}
+		tmp = d
+	}
+	run.Extra("temp_dir", tmp)
 	z.tmp = tmp
 	os.Setenv("TMPDIR", tmp)
 	defer func() {
@@ -1165,7 +1200,7 @@ func TestZZVerifC20(t *testing.T) {
 	run.Extra("jobs", len(jobs))
 	run.Extra("archives", len(z.arch))
 
-	workers := runtime.NumCPU()
+	workers := runtime.GOMAXPROCS(0)
 	if workers > 16 {
 		workers = 16
 	}
